@@ -4,7 +4,7 @@
 //     order) -- compared with the LAST MESSAGE per location of the model's write log (comp/radixconc/driver.ml), and
 //   * find(k) for every key of the script -- compared with the model's READER (one load per step, release/acquire
 //     memory) under the latest-message choice.
-// Independent oracle (no model): std::map reference for every find.
+// Independent oracle (no model): std::map reference for every find; no value destructor runs inside a library call.
 // Ops:  i k v (insert) | o k v (find_or_insert) | e k (p = find; erase; caller destroys)
 #include <map>
 #include <algorithm>
@@ -29,10 +29,17 @@ struct RAlloc {
 	void free(void *p) { inner.free(p); }
 };
 
+// the library must never end the lifetime of a value inside find / find_or_insert / insert / erase: erase only clears
+// the mask bit, the CALLER destroys the value after its grace period (a value destroyed while its key is still
+// published is what a concurrent find would return)
+bool g_in_lib = false;
+int g_lib_dtors = 0;
 struct RV : vh::TV {
 	RV(uint64_t x) : vh::TV(x) {}
 	RV(const RV &) = delete;
+	~RV() { if(g_in_lib) g_lib_dtors++; }
 };
+struct InLib { InLib() { g_in_lib = true; g_lib_dtors = 0; } ~InLib() { g_in_lib = false; } };
 
 using Tree = frg::rcu_radixtree<RV, RAlloc>;
 using Node = Tree::node;
@@ -118,20 +125,24 @@ void body(const vh::Lines &ls) {
 				if(o == "i") {
 					expect_assert = it != ref.end();
 					uint64_t v = vh::u64(w[2]);
-					RV *p = t.insert(k, v);
+					RV *p; { InLib il; p = t.insert(k, v); }
 					ref[k] = Ref{p, v};
 				} else if(o == "o") {
 					uint64_t v = vh::u64(w[2]);
-					auto r = t.find_or_insert(k, v);
-					if(it == ref.end()) ref[k] = Ref{r.template get<0>(), v};
+					RV *p; { InLib il; p = t.find_or_insert(k, v).template get<0>(); }
+					if(it == ref.end()) ref[k] = Ref{p, v};
 				} else if(o == "e") {
 					expect_assert = it == ref.end();
-					RV *p = t.find(k);
-					t.erase(k);
-					if(p) p->~RV();
+					RV *p;
+					{ InLib il; p = t.find(k); t.erase(k); }
+					if(g_lib_dtors) vh::oracle("destroyed-while-published", "op %zu: erase(%#llx) ran %d value destructor(s): the value is dead "
+						"while a concurrent find can still obtain it (erase must only clear the mask bit)", opno, (unsigned long long)k, g_lib_dtors);
+					if(p) p->~RV();          // the caller's part of the protocol, after the grace period
 					if(it != ref.end()) ref.erase(it);
 				} else continue;
+				if(o != "e" && g_lib_dtors) vh::oracle("destroyed-while-published", "op %zu '%s' ran %d value destructor(s)", opno, line.c_str(), g_lib_dtors);
 			} catch(vh::AssertStop &a) {
+				g_in_lib = false;
 				printf("assert\n");
 				if(!expect_assert) vh::oracle("unexpected-assert", "op %zu '%s': %s", opno, line.c_str(), a.where.c_str());
 				break;
